@@ -279,7 +279,7 @@ def write_evidence(prop, tier, seed, mod, cases, results, violations, known_seen
     tot = lambda k: sum(r[k] for r in results)
     st_keys = ("decisions", "feasibility_queries", "xor_lemmas", "gauss", "free_queries", "assumed_feasible", "summary_paths",
                "concretizations", "aborted", "rt_sweeps", "rt_sweep_queries", "rt_mux", "rt_mux_linear", "rt_pred_if", "rt_ite",
-               "rt_choice", "rt_summaries", "rt_tabulations", "rt_lazy_calls", "gauss_obligations", "exact_fallbacks", "exact_retries", "rt_alias_forks", "rt_inplace_merges", "rt_pred_fail",
+               "rt_choice", "rt_summaries", "rt_tabulations", "rt_lazy_calls", "gauss_obligations", "exact_fallbacks", "exact_retries", "rt_alias_forks", "rt_inplace_merges", "rt_pred_fail", "cvc5_fallbacks", "cvc5_fallback_decided",
                "twin_timeouts")
     agg = {k: sum(r["stats"].get(k, 0) for r in results) for k in st_keys}
     solver_s = round(sum(r["stats"].get("solver_s", 0.0) for r in results), 2)
